@@ -562,11 +562,19 @@ mod query {
              FROM issues
              WHERE repo = ?1
              AND issue->>'$.state.status' = ?2
+             AND issue->>'$.state.reason' IS ?3
              ORDER BY id
             ",
         )?;
+        // Nb. Two states are equal only if their close reasons are equal too,
+        // this is also how issues are filtered when there is no cache.
+        let reason = match serde_json::to_value(filter)?.get("reason") {
+            Some(serde_json::Value::String(reason)) => sql::Value::String(reason.to_owned()),
+            _ => sql::Value::Null,
+        };
         stmt.bind((1, rid))?;
         stmt.bind((2, sql::Value::String(filter.to_string())))?;
+        stmt.bind((3, reason))?;
         Ok(IssuesIter {
             inner: stmt.into_iter(),
         })
